@@ -4,7 +4,7 @@
    with n universally quantified (every byte offset), rs the committed records, ps the session's puts. *)
 From Coq Require Import NArith List Bool.
 Import ListNotations.
-From Molli Require Import Model.UKV Proofs.UKVBase Proofs.UKV Proofs.UKVCrash Proofs.UKVCrashChain.
+From Molli Require Import Model.UKV Proofs.UKVBase Proofs.UKV Proofs.UKVCrash Proofs.UKVCrashChain Proofs.UKVCrashRun.
 Open Scope N_scope.
 
 (* Reopening a crash image (fresh handle after the process died, or another process's handle with a stale
@@ -86,6 +86,16 @@ Example C03_chain_nonvacuous :
   chain_records rs ss = [([1], [10; 11]); ([2], [20]); ([5], [50])] /\
   chain (H ++ blocks rs) ss = H ++ blocks [([1], [10; 11]); ([2], [20]); ([5], [50])].
 Proof. vm_compute. split; reflexivity. Qed.
+
+(* The chain IS a run of the operational model `run` (Model/UKV.v, the function the correspondence check drives
+   against the real UKVFile; its Crash op = "the file keeps its first n bytes, every handle object is new"):
+   the history  Open a; Put..; Crash;  Open a; Put..; Crash;  ...;  Open a   -- chain_ops, each Crash cutting n_i bytes
+   into that session's appended stream -- leaves exactly header ++ complete blocks of chain_records. *)
+Theorem C03_run_chain : forall H ss rs,
+  hdr_ok H -> Forall wfkv (rs ++ all_puts ss) -> NoDup (map fst (rs ++ all_puts ss)) ->
+  fst (snd (run (H ++ blocks rs, [h0]) (chain_ops H rs ss ++ [Open 0 MA]))) = H ++ blocks (chain_records rs ss).
+Proof. exact run_chain_clean. Qed.
+Print Assumptions C03_run_chain.
 
 (* A test, not a theorem: on this instance the chain is the operational model `run` (the one the correspondence
    check drives against the real UKVFile, with its Crash op = "the file keeps its first n bytes, every handle
